@@ -438,6 +438,23 @@ def rmw_core(R, name, v, dst_seed, src_seed, is_length, taint_fn, is_dst_lhs=Non
             if not any(a[0] == "ref" and a[1] in masks for a in ands):
                 ok, detail = False, f"new bits `{cast.show(o)}` are merged without `& mask`: bits outside the copied range are disturbed"
         out.append(res(R, name, f"{name}: partial-byte store `{shown}` is a masked read-modify-write", ok, detail))
+        # ... and the mask is cut to the length: a mask that depends on the offsets only covers everything up to the byte boundary, so a
+        # fragment that ends before the boundary (length 0 included) overwrites the neighbouring bits
+        if ok:
+            full_env = v.env(s.index)
+            used = {x[2][1] for x in cast.subterms(rhs) if x[0] == "un" and x[1] == "~" and x[2][0] == "ref" and x[2][1] in masks} | \
+                {a[1] for o in flat("|", rhs) for a in flat("&", o) if a[0] == "ref" and a[1] in masks}
+            for mk in sorted(used):
+                mt = cast.substitute(("ref", mk), full_env)
+                for _ in range(6):
+                    mt2 = cast.substitute(mt, full_env)
+                    if mt2 == mt:
+                        break
+                    mt = mt2
+                dep = any(is_length(x) for x in cast.subterms(mt))
+                out.append(res(R, name, f"{name}: the mask `{mk}` of the partial-byte store `{shown}` is bounded by the length", dep,
+                               f"`{mk}` = `{cast.show(mt)[:80]}` does not depend on the length: the store covers every bit up to the byte boundary, "
+                               "also those behind the end of the fragment"))
     if n_store < min_stores:
         out.append(res(R, name, f"{name}: partial-byte stores found", False, f"only {n_store} store(s) into the destination recognised"))
     # whole-byte move: floor(length/8)
